@@ -1,10 +1,10 @@
 #!/bin/bash
-# tools/seed_all.sh [tier] — every kept seeded change against the check of its property; one line each in seeded/RESULTS.tsv
-tier=${1:-quick}
+# tools/seed_all.sh [tier] [glob] [outfile] — kept seeded changes against the check of their property; one line each in the outfile
+tier=${1:-quick}; pat=${2:-C*-m*}; outf=${3:-RESULTS.tsv}
 cd /verif
-out=seeded/RESULTS.tsv
+out=seeded/$outf
 : > $out.tmp
-for d in seeded/C*-m*; do
+for d in seeded/$pat; do
   name=$(basename $d); id=${name%%-*}
   r=$(tools/seed_try.sh $d/patch.diff $id $tier 0 2>&1)
   verdict=$(echo "$r" | tail -1 | awk '{print $1}')
